@@ -12,6 +12,8 @@ import Driver.Sweep2
 import Driver.Export
 import Driver.Progress
 import Driver.Bool3
+import Driver.EdgeOp
+import Driver.CsgBatch
 import Driver.Ingest
 import Driver.Partition
 import Driver.Hull
@@ -37,6 +39,8 @@ def dispatch (line : String) : String :=
   | "export" :: rest => ExportDrv.handle rest
   | "progress" :: rest => ProgressDrv.handle rest
   | "bool3" :: rest => Bool3Drv.handle rest
+  | "edgeop" :: rest => EdgeOpDrv.handle rest
+  | "csgbatch" :: rest => CsgBatchDrv.handle rest
   | "ingest" :: rest => IngestDrv.handle rest
   | "partition" :: rest => PartitionDrv.handle rest
   | "hull" :: rest => HullDrv.handle rest
